@@ -160,7 +160,7 @@ func newShimAgent(conn io.ReadWriteCloser, noUpstream bool) (*Server, error) {
 
 	srv := &Server{
 		conn:                   conn,
-		agent:                  agent.NewClient(conn),
+		agent:                  safeAgent{agent.NewClient(conn)},
 		certs:                  make(map[hashcode]*certificate),
 		noUpstreamSSHCACert:    noUpstream,
 		upstreamSSHCACertCache: make(map[hashcode]struct{}),
